@@ -923,8 +923,8 @@ class NetworkGraph(AbstractBaseIR):
                     # result that numpy's dot gives for a 2D matrix times a scalar.
                     weight_mat = weight_mat.squeeze(axis=1)
                     eq = f"{t_str_final} = {w_str} * {s_str_final}"
-                elif len(tidx_unique) == 1 and tsize == 1:
-                    # Single scalar target: use a 1D weight vector so that the
+                elif len(tidx_unique) == 1:
+                    # Single target unit: use a 1D weight vector so that the
                     # product reduces to a scalar instead of a length-1 vector,
                     # which cannot be assigned to a scalar slot of the state
                     # derivative vector.
